@@ -7,6 +7,7 @@ where
   Item: Clone + Send + Sync,
 {
   take_op: operators::Take<Item>,
+  count: usize,
 }
 
 impl<'a, Item> ElementAt<Item>
@@ -16,10 +17,12 @@ where
   pub fn new(count: usize) -> ElementAt<Item> {
     ElementAt {
       take_op: operators::Take::<Item>::new(count),
+      count,
     }
   }
   pub fn execute(&self, source: Observable<'a, Item>) -> Observable<'a, Item> {
     let take_op = self.take_op.clone();
+    let count = self.count;
 
     Observable::<Item>::create(move |s| {
       let source = source.clone();
@@ -31,7 +34,7 @@ where
 
       take_op
         .execute(source)
-        .last()
+        .skip(count.saturating_sub(1))
         .inner_subscribe(sctl.new_observer(
           move |_, x| {
             sctl_next.sink_next(x);
